@@ -120,6 +120,7 @@ class Exec:
         self.consts = consts
         self.fresh = 0
         self.used = set()
+        self.panics = []  # path conditions under which a rustc-inserted assert (overflow check) fails
 
     def find(self, callee):
         # callee text like `PhaseAccumulator::<TOTAL_NUM_BITS, NUM_INDEX_BITS>::reset`
@@ -164,6 +165,9 @@ class Exec:
             if k not in st.fields:
                 raise Unsupported("field %d not provided" % k)
             return st.fields[k]
+        m = re.match(r"\((_\d+)\.(\d+): (\w+)\)$", pl)
+        if m and m.group(1) in st.locals and st.locals[m.group(1)][0] == "Tuple":
+            return st.locals[m.group(1)][1][int(m.group(2))]
         m = re.match(r"\((_\d+)\.0: f32\)$", pl)
         if m:
             return st.locals[m.group(1)]
@@ -188,7 +192,7 @@ class Exec:
         rv = rv.strip()
         m = re.match(r"(\w+)\((.*), (.*)\)$", rv)
         if m and m.group(1) in ("Lt", "Le", "Gt", "Ge", "Eq", "Ne", "Add", "Sub", "Mul", "Div", "Rem",
-                                "BitAnd", "Shr", "AddWithOverflow"):
+                                "BitAnd", "Shr", "AddWithOverflow", "SubWithOverflow"):
             op, a, b = m.group(1), self.operand(st, m.group(2)), self.operand(st, m.group(3))
             if a[0] == F32:
                 if op in ("Lt", "Le", "Gt", "Ge"):
@@ -210,6 +214,15 @@ class Exec:
                     r = "(ite (or (fp.isInfinite %s) (fp.isNaN %s)) (_ NaN 8 24) %s)" % (x, x, r)
                     return (F32, r)
             else:
+                if op in ("AddWithOverflow", "SubWithOverflow"):
+                    # (result, overflowed) as rustc's checked arithmetic produces it (u32)
+                    if op == "AddWithOverflow":
+                        r = "(bvadd %s %s)" % (a[1], b[1])
+                        ov = "(bvult %s %s)" % (r, a[1])
+                    else:
+                        r = "(bvsub %s %s)" % (a[1], b[1])
+                        ov = "(bvult %s %s)" % (a[1], b[1])
+                    return ("Tuple", [(a[0], r), ("Bool", ov)])
                 bv = {"Add": "bvadd", "Sub": "bvsub", "BitAnd": "bvand", "Shr": "bvlshr", "Mul": "bvmul"}
                 if op in bv:
                     return (a[0], "(%s %s %s)" % (bv[op], a[1], b[1]))
@@ -297,6 +310,13 @@ class Exec:
                     step(m.group(2), clone(st), "(and %s (not %s))" % (cond, c[1]), depth + 1)
                     step(m.group(3), clone(st), "(and %s %s)" % (cond, c[1]), depth + 1)
                     return
+                m = re.match(r"assert\((!?)(.*?), \".*\) -> \[success: (bb\d+), unwind .*\]$", s)
+                if m:
+                    c = self.operand(st, m.group(2))
+                    ok = "(not %s)" % c[1] if m.group(1) == "!" else c[1]
+                    # the failing branch is a panic: recorded as an obligation, execution continues on success
+                    self.panics.append("(and %s (not %s))" % (cond, ok))
+                    return step(m.group(3), st, "(and %s %s)" % (cond, ok), depth + 1)
                 m = re.match(r"(.*?) = (.*?)\((.*)\) -> \[return: (bb\d+), unwind .*\]$", s)
                 if m and not re.match(r"^(Lt|Le|Gt|Ge|Eq|Ne|Add|Sub|Mul|Div|Rem|BitAnd|Shr)$", m.group(2).strip()):
                     dst, callee, argtxt, nxt = m.group(1), m.group(2).strip(), m.group(3), m.group(4)
